@@ -797,8 +797,8 @@ pub fn run_c07(opts: &Opts, out: &mut Emitter) {
         use tx3_tir::model::core::Type;
         for coll in [false, true] {
             for many in [false, true] {
-                for shape in 0..27u32 {
-                    let (a, m, rf) = (shape % 3, (shape / 3) % 3, shape / 9);
+                for shape in 0..36u32 {
+                    let (a, m, rf) = (shape % 3, (shape / 3) % 4, shape / 12);
                     let q = tir::InputQuery {
                         address: match a {
                             0 => tir::Expression::None,
@@ -808,10 +808,16 @@ pub fn run_c07(opts: &Opts, out: &mut Emitter) {
                         min_amount: match m {
                             0 => tir::Expression::None,
                             1 => ada(5),
-                            _ => tir::Expression::Assets(vec![tir::AssetExpr {
+                            2 => tir::Expression::Assets(vec![tir::AssetExpr {
                                 policy: tir::Expression::None,
                                 asset_name: tir::Expression::None,
                                 amount: param("qm", Type::Int),
+                            }]),
+                            // a parameter whose declared type is an alias (`type Amount = Int;` lowers to a custom type)
+                            _ => tir::Expression::Assets(vec![tir::AssetExpr {
+                                policy: tir::Expression::None,
+                                asset_name: tir::Expression::None,
+                                amount: param("qc", Type::Custom("Amount".into())),
                             }]),
                         },
                         r#ref: match rf {
@@ -835,7 +841,10 @@ pub fn run_c07(opts: &Opts, out: &mut Emitter) {
                             optional: false,
                         });
                     }
-                    let case = complete_case(&mut g, t);
+                    let mut case = complete_case(&mut g, t);
+                    if m == 3 {
+                        case.args.insert("qc".into(), ArgValue::Int(7));
+                    }
                     let thorough = opts.thorough;
                     out.case("query-shape-sweep", || {
                         let s = if thorough { None } else { Some(&mut sampler) };
